@@ -192,7 +192,9 @@ def _run(ctx, case, net):
                     hit = e["from"] == src and e["to"] == 0o100 and (
                         e["msg"] == sent[rec["i"]] or (e["msg"][:4] == sent[rec["i"]][:4]))
                 else:
-                    hit = e["from"] == src and e["to"] == 0o100 and t_lo <= e["t"] < t_hi
+                    # too short to carry an id: same origin, length and type inside the step's window
+                    hit = (e["from"] == src and e["to"] == 0o100 and t_lo <= e["t"] < t_hi
+                           and len(e["msg"]) == ms["len"] and e["type"] == ms["type"])
                 if hit:
                     if e["msg"] != sent[rec["i"]] or e["type"] != ms["type"]:
                         ctx.violation("multicast-corrupted" + mech, "node %s read %d bytes type %d for "
